@@ -190,6 +190,7 @@ func runC14(c *Ctx) {
 			}
 		}
 		R.Floor("R14.1:shared-written-fields:"+d.Name, nshared, 1)
+		checkPointeeFields(c, d, la1.Accesses, la2.Accesses)
 	}
 	R.Floor("R14.1:parallel-drivers", npar, 3)
 	checkParallelGate(c)
@@ -347,7 +348,9 @@ func checkClosures(c *Ctx) {
 			}
 			before := true
 			for _, sp := range spawns {
-				if !core.InstrDominates(at, sp) {
+				// before = on every path to the spawn and never again afterwards (an access in the spawning loop's body
+				// dominates the go statement of its own iteration but follows the one of the previous iteration)
+				if !core.InstrDominates(at, sp) || instrReaches(sp, at) && !freshPerIteration(a.Instr, at, sp) {
 					before = false
 				}
 			}
@@ -453,4 +456,168 @@ func checkClosures(c *Ctx) {
 		}
 	}
 	R.Floor("R14.2:spawn-sites", nspawn, 6)
+}
+
+// checkPointeeFields is the type-keyed complement of R14.1. Access-path names cannot see that two paths lead to one object
+// (a pointer copied into a generator struct, a helper returning the state pointer), so fields of module struct types that are
+// reached through a pointer are additionally keyed by (type, field): if the sender's and the receiver's call trees both touch
+// such a field and one of them writes it, all those accesses must share a mutex. Freshly allocated / local structs are exempt,
+// the driver type itself is decided by the access-path rule above.
+func checkPointeeFields(c *Ctx, d Driver, send, recv []core.Access) {
+	R := c.R
+	fieldKey := func(in ssa.Instruction) string {
+		var addr ssa.Value
+		switch x := in.(type) {
+		case *ssa.Store:
+			addr = x.Addr
+		case *ssa.UnOp:
+			addr = x.X
+		default:
+			return ""
+		}
+		fa, ok := addr.(*ssa.FieldAddr)
+		if !ok {
+			return ""
+		}
+		if _, fresh := fa.X.(*ssa.Alloc); fresh {
+			return ""
+		}
+		pt, ok := fa.X.Type().Underlying().(*types.Pointer)
+		if !ok {
+			return ""
+		}
+		nt, ok := pt.Elem().(*types.Named)
+		if !ok || nt.Obj().Pkg() == nil || !strings.HasPrefix(nt.Obj().Pkg().Path(), core.ModulePath) || types.Identical(nt, d.Named) {
+			return ""
+		}
+		return nt.Obj().Pkg().Name() + "." + nt.Obj().Name() + "." + core.FieldName(fa)
+	}
+	type use struct{ send, recv []core.Access }
+	uses := map[string]*use{}
+	for _, a := range send {
+		if k := fieldKey(a.Instr); k != "" {
+			if uses[k] == nil {
+				uses[k] = &use{}
+			}
+			uses[k].send = append(uses[k].send, a)
+		}
+	}
+	for _, a := range recv {
+		if k := fieldKey(a.Instr); k != "" {
+			if uses[k] == nil {
+				uses[k] = &use{}
+			}
+			uses[k].recv = append(uses[k].recv, a)
+		}
+	}
+	var keys []string
+	for k := range uses {
+		keys = append(keys, k)
+	}
+	sort.Strings(keys)
+	for _, k := range keys {
+		u := uses[k]
+		if len(u.send) == 0 || len(u.recv) == 0 {
+			continue
+		}
+		all := append(append([]core.Access{}, u.send...), u.recv...)
+		var w *core.Access
+		skip := false
+		for i := range all {
+			if all[i].Write && w == nil {
+				w = &all[i]
+			}
+			if all[i].Atomic || core.IsSyncType(all[i].Typ) {
+				skip = true
+			}
+		}
+		key := fmt.Sprintf("%s#pointee[%s]", d.Name, k)
+		if w == nil || skip {
+			R.OK("R14.1", key, all[0].Instr.Pos(), d.Name, "reached through a pointer by sender and receiver, never written by either (or of an atomic type)")
+			continue
+		}
+		var common map[string]bool
+		for _, a := range all {
+			ls := map[string]bool{}
+			for _, l := range a.Locks {
+				ls[l] = true
+			}
+			if common == nil {
+				common = ls
+				continue
+			}
+			for l := range common {
+				if !ls[l] {
+					delete(common, l)
+				}
+			}
+		}
+		if len(common) > 0 {
+			R.OK("R14.1", key, w.Instr.Pos(), d.Name, fmt.Sprintf("%d accesses through pointers, all under a common mutex", len(all)))
+			continue
+		}
+		var o *core.Access
+		for i := range all {
+			if &all[i] != w && (o == nil || len(all[i].Locks) == 0) {
+				o = &all[i]
+			}
+		}
+		det := fmt.Sprintf("field %s is written at %s (%s, locks %v)", k, c.P.PosStr(w.Instr.Pos()), core.FuncName(w.Fn), w.Locks)
+		if o != nil {
+			det += fmt.Sprintf(" and accessed at %s (%s, locks %v)", c.P.PosStr(o.Instr.Pos()), core.FuncName(o.Fn), o.Locks)
+		}
+		det += " through pointers from the concurrently running SendProbe / ReceiveProbe trees with no common mutex (the two access paths may name one object)"
+		R.Fail("R14.1", key, w.Instr.Pos(), d.Name, det)
+	}
+}
+
+// instrReaches: control can flow from instruction a to instruction b (a executed first).
+func instrReaches(a, b ssa.Instruction) bool {
+	ab, bb := a.Block(), b.Block()
+	if ab == bb {
+		ia, ib := -1, -1
+		for i, in := range ab.Instrs {
+			if in == a {
+				ia = i
+			}
+			if in == b {
+				ib = i
+			}
+		}
+		if ia < ib {
+			return true
+		}
+	}
+	seen := map[*ssa.BasicBlock]bool{}
+	work := append([]*ssa.BasicBlock{}, ab.Succs...)
+	for len(work) > 0 {
+		x := work[len(work)-1]
+		work = work[:len(work)-1]
+		if x == bb {
+			return true
+		}
+		if seen[x] {
+			continue
+		}
+		seen[x] = true
+		work = append(work, x.Succs...)
+	}
+	return false
+}
+
+// freshPerIteration: the accessed variable is allocated inside the spawning loop, after the previous iteration's spawn and
+// before this access, so the instance touched here did not exist when the earlier goroutines were started.
+func freshPerIteration(acc ssa.Instruction, at, sp ssa.Instruction) bool {
+	var addr ssa.Value
+	switch x := acc.(type) {
+	case *ssa.Store:
+		addr = x.Addr
+	case *ssa.UnOp:
+		addr = x.X
+	}
+	al, ok := addr.(*ssa.Alloc)
+	if !ok || al.Parent() != sp.Parent() {
+		return false
+	}
+	return instrReaches(sp, al) && core.InstrDominates(al, at)
 }
